@@ -492,6 +492,14 @@ func defineInterfaces(ttype *Object, interfaces []*Interface) ([]*Interface, err
 					`during execution.`, iface, ttype,
 			)
 		}
+		for _, seen := range ifaces {
+			if err = invariantf(
+				seen != iface,
+				`%v may declare that it implements %v only once.`, ttype, iface,
+			); err != nil {
+				return ifaces, err
+			}
+		}
 		ifaces = append(ifaces, iface)
 	}
 
@@ -893,6 +901,14 @@ func defineUnionTypes(objectType *Union, unionTypes []*Object) ([]*Object, error
 					`and possible Type %v does not provide a "isTypeOf" `+
 					`function. There is no way to resolve this possible type `+
 					`during execution.`, objectType, ttype,
+			); err != nil {
+				return definedUnionTypes, err
+			}
+		}
+		for _, seen := range definedUnionTypes {
+			if err := invariantf(
+				seen != ttype,
+				`%v can include %v type only once.`, objectType, ttype,
 			); err != nil {
 				return definedUnionTypes, err
 			}
